@@ -20,7 +20,9 @@ from vf.tv.lex import RefGap
 
 G = ("", " ", "  ")
 G1 = (" ", "  ")
-EOLS = ("\n", "\r", "\r\n", "\n\n")
+EOLS = ("\n", "\r", "\r\n", "\n\n", "\n \n", "\r\n  \r\n")
+LEAD = ("", "\n", " \n", "  \r\n", "\r\r")
+TAIL = ("", "\n", "\r", "\n \n", "\n  ")
 KW = dict(add_standard_prefix=False, add_suffix=False, skip_procedure_headers=True)
 
 
@@ -43,6 +45,8 @@ def tokens_of_line(rest):
 def skeleton(src, eol_choices=True, tail=False, gaps=True):
     """program text (family spelling: one blank between tokens) -> parts list for gapsym"""
     parts = []
+    if tail:
+        parts.append(LEAD)
     lines = src.split("\n")
     for li, line in enumerate(lines):
         m = re.match(r"(\d+) ?(.*)$", line)
@@ -99,7 +103,7 @@ def skeleton(src, eol_choices=True, tail=False, gaps=True):
         if li < len(lines) - 1:
             parts.append(EOLS if eol_choices else "\n")
     if tail:
-        parts.append(("", "\n", "\r"))
+        parts.append(TAIL)
         parts.append(("", "\0"))
     return parts
 
@@ -166,8 +170,10 @@ def describe_choice(parts, idx):
                 right = next((q for q in parts[pos + 1:] if isinstance(q, str) and q), "$")
                 if p == EOLS:
                     return "line-end"
-                if p == ("", "\n", "\r"):
+                if p == TAIL:
                     return "final-line-end"
+                if p == LEAD:
+                    return "leading-blank-lines"
                 if p == ("", "\0"):
                     return "trailing-nul"
                 if p == ("PRINT", "?"):
